@@ -48,17 +48,24 @@ Definition float_normalize (xctx : option (Z * option Z)) (r : rf) : result rf :
   | Some (p, n) => normalize r (Some p) n
   end.
 
-(* core.frexp(x, ctx): mantissa in [1, 2) and normalized exponent; note that
-   the exponent is rounded WITHOUT exact=True *)
-Definition core_frexp (fc : fctx) (xctx : option (Z * option Z)) (x : fl) : result (fl * fl) :=
+(* core.frexp(x, ctx): mantissa in [1, 2) and normalized exponent.  Two details
+   of the source are read off /repo on every run (harness/props/c20.py) and
+   passed in as a `frexp_variant`:
+     fv_normalize : the finite arm starts with `x = x.normalize()`
+     fv_exact_e   : the exponent is rounded with exact=True *)
+Record frexp_variant := FV { fv_normalize : bool; fv_exact_e : bool }.
+Definition frexp_pinned : frexp_variant := FV true false.   (* as found at the pinned revision *)
+Definition frexp_repaired : frexp_variant := FV false true.
+
+Definition core_frexp (v : frexp_variant) (fc : fctx) (xctx : option (Z * option Z)) (x : fl) : result (fl * fl) :=
   match x with
   | FNaN _ => round2 fc (FNaN false) (FNaN false)
   | FInf s => round2 fc (FInf s) (FNaN false)
   | FFin r =>
       if is_zero r then round2 fc (FFin (RF (rs r) 0 0)) (FFin (RF false 0 0))
       else
-        bind (float_normalize xctx r) (fun y =>
+        bind (if fv_normalize v then float_normalize xctx r else Ok r) (fun y =>
         bind (fl_round fc true (FFin (RF (rs y) (0 - bitlen (rc y) + 1) (rc y)))) (fun m =>
         let ee := rf_e y in
-        bind (fl_round fc false (FFin (RF (ee <? 0) 0 (Z.abs ee)))) (fun e => Ok (m, e))))
+        bind (fl_round fc (fv_exact_e v) (FFin (RF (ee <? 0) 0 (Z.abs ee)))) (fun e => Ok (m, e))))
   end.
